@@ -493,3 +493,232 @@ def c11_kf_pairs(seed):
   b = sugar_eq(a, random.Random(0))
   return [dict(a=Side(a.text(), 'T', label='short'), b=Side(b.text(), 'T', label='sugar_eq'),
                tables=['G'], K=2, strings_list=[], label='kf_witness/sugar_eq')]
+
+
+# ---------------------------------------------------------------- C08: plan-selecting annotations
+
+PLAN_ANNOTATIONS = [None, '@NoInject(%s);', '@With(%s);', '@NoWith(%s);', '@Ground(%s);']
+
+
+def with_annotations(prog, assignment):
+  anns = list(prog.annotations)
+  for p, a in assignment.items():
+    if a:
+      anns.append(a % p)
+  return Program(prog.rules, anns, prog.ext, prog.engine_line)
+
+
+def c08_pairs(seed):
+  rnd = random.Random(seed ^ 0xc08)
+  if seed % 3 == 2:
+    case = gen.core_case(seed // 3)
+    inter = [p for p in case.prog.preds() if p not in case.macros and p not in ('TF', 'Cst', 'Fct', 'UseFct')][:-1]
+    checks = case.check[-1:]
+    if case.check and case.check[-1] in ('TF', 'UseFct'):
+      checks = [p for p in case.check if p not in ('TF', 'UseFct', 'Cst', 'Fct')][-1:]
+  else:
+    case = gen.layered_case(seed)
+    inter = case.intermediates
+    checks = case.check
+  if not inter or not checks:
+    return []
+  prog = case.prog
+  strings = lang.strings_of(prog)
+  pairs = []
+  seen = set()
+  for _ in range(4):
+    assignment = {p: rnd.choice(PLAN_ANNOTATIONS) for p in inter}
+    if not any(assignment.values()):
+      continue
+    key = tuple(sorted(assignment.items()))
+    if key in seen:
+      continue
+    seen.add(key)
+    prog2 = with_annotations(prog, assignment)
+    for pred in checks:
+      if assignment.get(pred):
+        continue
+      pairs.append(dict(a=Side(prog.text(), pred, label='default plan'),
+                        b=Side(prog2.text(), pred, label='annotated'),
+                        tables=case.used_tables() or ['G'], K=case.K, strings_list=strings,
+                        nullable=case.nullable, require_different_sql=True,
+                        label='%s/%s/%s' % (case.family, case.notes,
+                                            ','.join('%s:%s' % (p, (a or '-').split('(')[0]) for p, a in sorted(assignment.items())))))
+  return pairs
+
+
+# ---------------------------------------------------------------- C04: functors
+
+def pred_deps(prog):
+  """pred -> set of predicates mentioned in its rules"""
+  deps = {}
+  for r in prog.rules:
+    acc = deps.setdefault(r.pred, set())
+
+    def walk(n):
+      if isinstance(n, (Atom, ValAtom, Call)):
+        acc.add(n.pred)
+      if isinstance(n, Node):
+        for c in children(n):
+          walk(c)
+    for a in r.args:
+      walk(a)
+    for k, v in r.nargs:
+      if v is not None:
+        walk(v)
+    if r.value is not None:
+      walk(r.value)
+    if r.body is not None:
+      walk(r.body)
+  return deps
+
+
+def closure(deps, p):
+  seen = set()
+  stack = [p]
+  while stack:
+    q = stack.pop()
+    for d in deps.get(q, ()):
+      if d not in seen:
+        seen.add(d)
+        stack.append(d)
+  return seen
+
+
+def hand_substitute(prog, target, functor, bindings):
+  """rules defining `target` as `functor` with every use of the argument predicates,
+  direct or through the predicates functor is built from, replaced (done on this AST,
+  without /repo's functors.py).  Returns the list of new rules."""
+  deps = pred_deps(prog)
+  args = set(bindings)
+  affected = set()
+  for p in closure(deps, functor) | {functor}:
+    if p in args or p not in deps:
+      continue
+    if (closure(deps, p) & args) or p == functor:
+      affected.add(p)
+  ren = dict(bindings)
+  for p in affected:
+    ren[p] = target if p == functor else '%s_of_%s' % (p, target)
+  new = []
+  for r in prog.rules:
+    if r.pred in affected:
+      rr = rename_rule_preds(r, ren)
+      new.append(rr)
+  return new
+
+
+def c04_case(seed):
+  rnd = random.Random(seed ^ 0xc04)
+  x, y, z = Var('x'), Var('y'), Var('z')
+  A = gen.A
+  rules = [
+      Rule('A1', [x], body=A('G', x)),
+      Rule('A2', [x, y], body=A('E', x, y)),
+      Rule('B1', [x], body=rnd.choice([A('F', x, y), A('F', y, x), Conj([A('G', x), A('F', x, x)])])),
+      Rule('B1b', [x], body=rnd.choice([A('E', x, y), Conj([A('G', x), Cmp('>', x, Num(0))])])),
+      Rule('B2', [x, y], body=rnd.choice([A('F', x, y), A('F', y, x), A('E', y, x)])),
+  ]
+  shape = rnd.choice(['direct', 'chain1', 'chain2', 'shared', 'agg', 'both_sides', 'neg'])
+  if shape == 'direct':
+    rules.append(Rule('Fn', [x, y], body=Conj([A('A1', x), A('A2', x, y)])))
+  elif shape == 'chain1':
+    rules.append(Rule('Mid', [x, y], body=Conj([A('A1', x), A('A2', x, y)])))
+    rules.append(Rule('Fn', [x, y], body=Conj([A('Mid', x, y), A('A1', y)])))
+  elif shape == 'chain2':
+    rules.append(Rule('Mid', [x, y], body=Conj([A('A2', x, y)])))
+    rules.append(Rule('Mid2', [y], distinct=True, body=Conj([A('Mid', x, y), A('A1', x)])))
+    rules.append(Rule('Fn', [x, y], body=Conj([A('Mid2', x), A('Mid', x, y)])))
+  elif shape == 'shared':
+    # an intermediate that depends on both arguments, as in the call-cache scenarios
+    rules.append(Rule('Both', [], [('side', Num(1)), ('v', x)], body=A('A1', x)))
+    rules.append(Rule('Both', [], [('side', Num(2)), ('v', y)], body=A('A2', x, y)))
+    rules.append(Rule('Fn', [], [('side', None), ('total', Agg('Sum', Var('v')))], distinct=True,
+                      body=Atom('Both', [], [('side', None), ('v', None)])))
+  elif shape == 'agg':
+    rules.append(Rule('Mid', [x], value=Agg('Sum', y), body=A('A2', x, y)))
+    rules.append(Rule('Fn', [x, z], body=Conj([A('A1', x), Cmp('==', z, Call('Mid', [x], []))])))
+  elif shape == 'both_sides':
+    rules.append(Rule('Mid', [x], body=Conj([A('A1', x), A('A2', x, y)])))
+    rules.append(Rule('Other', [x], body=Conj([A('A2', y, x)])))
+    rules.append(Rule('Fn', [x], body=Disj([A('Mid', x), Conj([A('Other', x), A('A1', x)])])))
+  else:
+    rules.append(Rule('Mid', [x], body=Conj([A('A1', x), Neg(A('A2', x, x))])))
+    rules.append(Rule('Fn', [x], body=Conj([A('Mid', x), A('A1', x)])))
+  base = Program(rules, ext=gen.EXT)
+  unary = ['B1', 'B1b']
+  makes = []   # (target, functor, bindings)
+  b1 = rnd.choice(unary)
+  makes.append(('N1', 'Fn', {'A1': b1}))
+  makes.append(('N2', 'Fn', {'A2': 'B2'}))
+  kind = rnd.choice(['two_args', 'other_binding', 'same_binding', 'of_result', 'same_value_diff_param',
+                     'name_order', 'through_made', 'through_made'])
+  extra_rules = []
+  if kind == 'two_args':
+    makes.append(('N3', 'Fn', {'A1': b1, 'A2': 'B2'}))
+  elif kind == 'other_binding':
+    makes.append(('N3', 'Fn', {'A1': [u for u in unary if u != b1][0]}))
+  elif kind == 'same_binding':
+    makes.append(('N3', 'Fn', {'A1': b1}))
+  elif kind == 'of_result':
+    makes.append(('N3', 'N1', {'A2': 'B2'}))
+  elif kind == 'same_value_diff_param':
+    # the same replacement predicate bound to different parameters of one functor whose
+    # parameters are both reached through one shared intermediate
+    rules = [r for r in rules if r.pred in ('A1', 'A2', 'B1', 'B1b', 'B2')]
+    rules.append(Rule('A1c', [x], body=A('F', x, x) if rnd.random() < 0.5 else A('G', x)))
+    rules.append(Rule('Both', [], [('side', Num(1)), ('v', x)], body=A('A1', x)))
+    rules.append(Rule('Both', [], [('side', Num(2)), ('v', x)], body=A('A1c', x)))
+    if rnd.random() < 0.5:
+      rules.append(Rule('Fn', [], [('side', None), ('total', Agg('Sum', Var('v')))], distinct=True,
+                        body=Atom('Both', [], [('side', None), ('v', None)])))
+    else:
+      rules.append(Rule('Fn', [Var('side'), Var('v')], body=Atom('Both', [], [('side', None), ('v', None)])))
+    base = Program(rules, ext=gen.EXT)
+    makes = [('N1', 'Fn', {'A1': b1}), ('N2', 'Fn', {'A1c': b1})]
+    shape = 'shared2'
+  elif kind == 'through_made':
+    # an ordinary predicate built on a made predicate; a second application reaches the
+    # made predicate only through that intermediate, and its argument also occurs inside it
+    first, second = rnd.choice([('Zed', 'Abe'), ('Abe', 'Zed'), ('Mk', 'Big')])
+    arity2 = any(r.pred == 'Fn' and len(r.args) == 2 for r in rules)
+    if arity2:
+      extra_rules.append(Rule('Tot', [x], distinct=True, body=A(first, x, y)))
+    else:
+      extra_rules.append(Rule('Tot', [x], distinct=True, body=(A(first, x) if not any(r.pred == 'Fn' and r.nargs for r in rules)
+                                                               else Atom(first, [], [('side', x)]))))
+    extra_rules.append(Rule('Rep', [x, y], body=Conj([A('Tot', x), A('A2', x, y)])))
+    makes = [(first, 'Fn', {'A1': b1}), (second, 'Rep', {'A2': 'B2'})]
+  else:
+    # a made predicate whose name sorts before / after the result it is built on
+    makes = [('Zed', 'Fn', {'A1': b1}), ('Abe', 'Zed', {'A2': 'B2'})]
+  # program with := lines
+  fun_rules = list(base.rules)
+  made_lines = []
+  for target, functor, b in makes:
+    made_lines.append('%s := %s(%s);' % (target, functor, ', '.join('%s: %s' % kv for kv in sorted(b.items()))))
+  if rnd.random() < 0.5:
+    made_lines.reverse()
+  fun_prog = Program(base.rules + extra_rules, [], gen.EXT)
+  fun_text = fun_prog.text() + '\n'.join(made_lines) + '\n'
+  # hand-substituted program: apply the makes in dependency order on the AST
+  hand_rules = list(base.rules) + extra_rules
+  for target, functor, b in makes:
+    cur = Program(hand_rules, [], gen.EXT)
+    hand_rules = hand_rules + hand_substitute(cur, target, functor, b)
+  hand_prog = Program(hand_rules, [], gen.EXT)
+  return base, fun_text, hand_prog, [m[0] for m in makes], '%s/%s' % (shape, kind)
+
+
+def c04_pairs(seed):
+  base, fun_text, hand_prog, made, notes = c04_case(seed)
+  tables = ['E', 'F', 'G']
+  pairs = []
+  for n in made:
+    pairs.append(dict(a=Side(fun_text, n, label='functor'), b=Side(hand_prog.text(), n, label='by hand'),
+                      tables=tables, K=2, strings_list=[], label='made %s %s' % (n, notes)))
+  # F, its arguments and bystanders keep their meaning
+  for p in ['Fn', 'A1', 'B2'] + (['Mid'] if any(r.pred == 'Mid' for r in base.rules) else []):
+    pairs.append(dict(a=Side(fun_text, p, label='with :='), b=Side(base.text(), p, label='without :='),
+                      tables=tables, K=2, strings_list=[], label='untouched %s %s' % (p, notes)))
+  return pairs
